@@ -37,6 +37,13 @@ theorem gtrunc0 {α : Type} (x : GSlice α) :
     GSlice.slice x 0 (0 : Int) = Res.ok { arr := x.arr, len := 0 } ∧ GWF ({ arr := x.arr, len := 0 } : GSlice α) :=
   ⟨gslice_ok x 0 (0 : Int) 0 0 rfl rfl (Nat.le_refl 0) (Nat.zero_le _), by unfold GWF; exact Nat.zero_le _⟩
 
+/-- `x[:0]` evaluates (the first part of `gtrunc0` as a rewrite rule) -/
+theorem gtrunc0_eq {α : Type} (x : GSlice α) :
+    GSlice.slice x 0 (0 : Int) = Res.ok { arr := x.arr, len := 0 } := (gtrunc0 x).1
+
+/-- decide the FIRST `if` of the goal from the context by omega, whatever the spelling of its test and whichever arm -/
+local macro "oi_ite" : tactic => `(tactic| first | rw [if_pos (by omega)] | rw [if_neg (by omega)])
+
 /-- an edge table of length 0 is the empty table -/
 theorem edgesAbs_len0 (es : GSlice (GSlice Gen.edge)) (h : es.len = 0) : edgesAbs es = #[] := by
   unfold edgesAbs GSlice.data
@@ -86,12 +93,10 @@ theorem gen_osap_resetEdges (s : Gen.optSuffixArrayParser) :
     { arr := s.tmp.arr, len := 0 }, s.cost, s.OSAPConfig⟩, ?_, rfl, rfl, rfl,
     ⟨odOf_empty _ rfl rfl rfl, rfl, rfl, rfl, rfl, rfl, rfl, rfl, rfl,
       (gtrunc0 s.edgeBuf).2, (gtrunc0 s.edges).2, (gtrunc0 s.tmp).2⟩⟩
+  -- the five statements are evaluated as they come, in whatever order the text has them (the fields are independent)
   unfold optSuffixArrayParser_resetEdges
-  rw [(gtrunc0 s.edgeBuf).1, bind_ok]
-  show Res.bind (GSlice.slice s.edges 0 (0 : Int)) _ = _
-  rw [(gtrunc0 s.edges).1, bind_ok]
-  show Res.bind (GSlice.slice s.tmp 0 (0 : Int)) _ = _
-  rw [(gtrunc0 s.tmp).1, bind_ok]
+  simp only [gtrunc0_eq, bind_ok]
+  try rfl
 
 /-- `resetEdges()` on a state whose `ParserBuffer` was just replaced -/
 theorem resetEdges_pb (s : Gen.optSuffixArrayParser) (b : Gen.ParserBuffer) :
@@ -110,16 +115,23 @@ theorem gen_osap_reset (s : Gen.optSuffixArrayParser) (hpb : PBWF s.ParserBuffer
       (e = Gen.Err.ok → EdgesReset s s') ∧
       (e ≠ Gen.Err.ok → EdgesKept s s') := by
   obtain ⟨b', e, hb, hof, herr, hwf⟩ := gen_pbuf_reset s.ParserBuffer hpb data hdat
-  unfold optSuffixArrayParser_Reset
-  rw [hb, bind_ok]
+  -- the test on the error is decided in either spelling (`err != nil`, `nil == err`, `err == nil` with swapped arms)
   by_cases he : e = Gen.Err.ok
-  · simp only [he, ne_eq, not_true_eq_false, if_false]
+  · subst he
     obtain ⟨s', h1, h2, h3, h4, h5⟩ := resetEdges_pb s b'
-    rw [h1, bind_ok]
-    exact ⟨s', Gen.Err.ok, rfl, by rw [h2]; exact hof, by rw [← he]; exact herr, by rw [h2]; exact hwf, h4, h3,
+    refine ⟨s', Gen.Err.ok, ?_, by rw [h2]; exact hof, herr, by rw [h2]; exact hwf, h4, h3,
       fun _ => h5, fun hc => absurd rfl hc⟩
-  · simp only [he, ne_eq, not_false_eq_true, if_true]
-    exact ⟨_, e, rfl, hof, herr, hwf, rfl, rfl, fun hc => absurd hc he, fun _ => ⟨rfl, rfl, rfl, rfl, rfl⟩⟩
+    unfold optSuffixArrayParser_Reset
+    rw [hb, bind_ok]
+    simp only [ne_eq, eq_self, not_true_eq_false, not_false_eq_true, if_true, if_false, h1, bind_ok]
+    try rfl
+  · have he' : ¬ Gen.Err.ok = e := fun h => he h.symm
+    refine ⟨{ s with ParserBuffer := b' }, e, ?_, hof, herr, hwf, rfl, rfl, fun hc => absurd hc he,
+      fun _ => ⟨rfl, rfl, rfl, rfl, rfl⟩⟩
+    unfold optSuffixArrayParser_Reset
+    rw [hb, bind_ok]
+    simp only [he, he', ne_eq, eq_self, not_true_eq_false, not_false_eq_true, if_true, if_false]
+    try rfl
 
 /-- **`Shrink()`** -/
 theorem gen_osap_shrink (s : Gen.optSuffixArrayParser) (hpb : PBWF s.ParserBuffer)
@@ -130,18 +142,25 @@ theorem gen_osap_shrink (s : Gen.optSuffixArrayParser) (hpb : PBWF s.ParserBuffe
       ((PBuf.shrink (ofPB s.ParserBuffer)).2 > 0 → EdgesReset s s') ∧
       ((PBuf.shrink (ofPB s.ParserBuffer)).2 = 0 → EdgesKept s s') := by
   obtain ⟨b', hb, hof, hwf⟩ := gen_pbuf_shrink s.ParserBuffer hpb hw
-  unfold optSuffixArrayParser_Shrink
-  rw [hb, bind_ok]
-  generalize (PBuf.shrink (ofPB s.ParserBuffer)).2 = d
+  generalize (PBuf.shrink (ofPB s.ParserBuffer)).2 = d at hb ⊢
+  -- the test on `delta` is decided by omega in whatever spelling / arm order (`oi_ite`)
   by_cases hd : d > 0
-  · have hd' : ((d : Nat) : Int) > 0 := by omega
-    simp only [hd', if_true]
-    obtain ⟨s', h1, h2, h3, h4, h5⟩ := resetEdges_pb s b'
-    rw [h1, bind_ok, bind_ok]
-    exact ⟨s', rfl, by rw [h2]; exact hof, by rw [h2]; exact hwf, h4, h3, fun _ => h5, fun hc => by omega⟩
-  · have hd' : ¬ ((d : Nat) : Int) > 0 := by omega
-    simp only [hd', if_false, bind_ok]
-    exact ⟨_, rfl, hof, hwf, rfl, rfl, fun hc => absurd hc hd, fun _ => ⟨rfl, rfl, rfl, rfl, rfl⟩⟩
+  · obtain ⟨s', h1, h2, h3, h4, h5⟩ := resetEdges_pb s b'
+    refine ⟨s', ?_, by rw [h2]; exact hof, by rw [h2]; exact hwf, h4, h3, fun _ => h5, fun hc => by omega⟩
+    unfold optSuffixArrayParser_Shrink
+    rw [hb, bind_ok]
+    try dsimp only
+    oi_ite
+    simp only [h1, bind_ok]
+    try rfl
+  · refine ⟨{ s with ParserBuffer := b' }, ?_, hof, hwf, rfl, rfl, fun hc => absurd hc hd,
+      fun _ => ⟨rfl, rfl, rfl, rfl, rfl⟩⟩
+    unfold optSuffixArrayParser_Shrink
+    rw [hb, bind_ok]
+    try dsimp only
+    oi_ite
+    try simp only [bind_ok]
+    try rfl
 
 /-! ## `init` -/
 
@@ -210,26 +229,34 @@ theorem gen_osap_init (s : Gen.optSuffixArrayParser) (cfg : Gen.OSAPConfig) :
   intro c bc
   obtain ⟨hbad, hgood⟩ := gen_pbuf_init s.ParserBuffer bc
   refine ⟨fun hne => ?_, fun hok => ⟨fun hne => ?_, fun hok2 => ?_⟩⟩
-  · unfold optSuffixArrayParser_init
+  · -- the tests on the two errors are decided in either spelling / arm order
+    have hne0 : ¬ OSAPConfig_Verify (OSAPConfig_SetDefaults cfg) = Gen.Err.ok := hne
+    have hne0' : ¬ Gen.Err.ok = OSAPConfig_Verify (OSAPConfig_SetDefaults cfg) := fun h => hne h.symm
+    unfold optSuffixArrayParser_init
     simp only []
-    rw [if_pos hne]
-  · unfold optSuffixArrayParser_init
+    simp only [hne0, hne0', ne_eq, eq_self, not_true_eq_false, not_false_eq_true, if_true, if_false]
+    try rfl
+  · have hk0 : OSAPConfig_Verify (OSAPConfig_SetDefaults cfg) = Gen.Err.ok := hok
+    have hne' : ¬ Gen.Err.ok = BufConfig_Verify (BufConfig_SetDefaults bc) := fun h => hne h.symm
+    unfold optSuffixArrayParser_init
     simp only []
-    rw [if_neg (fun hc => hc hok), hbad hne, bind_ok]
-    simp only [hne, ne_eq, not_false_eq_true, if_true]
+    simp only [hk0, ne_eq, eq_self, not_true_eq_false, not_false_eq_true, if_true, if_false]
+    rw [hbad hne, bind_ok]
+    simp only [hne, hne', ne_eq, eq_self, not_true_eq_false, not_false_eq_true, if_true, if_false]
+    try rfl
   · obtain ⟨b', hb, hof, hwf⟩ := hgood hok2
     obtain ⟨s', h1, h2, h3, h4, h5⟩ := resetEdges_pb s b'
     have hcost : (OSAPConfig_SetDefaults cfg).Cost = "XZCost" := (osap_verify_parts c hok).2.1
     refine ⟨{ s' with cost := 1, OSAPConfig := c }, ?_, by rw [← h2] at hof; exact hof, by rw [← h2] at hwf; exact hwf,
       rfl, rfl, ⟨odOf_empty _ h5.ledges h5.start h5.nEdges, h5.start, h5.nEdges, h5.lbuf, h5.ledges, h5.ltmp, h5.abuf,
         h5.aedges, h5.atmp, h5.wbuf, h5.wedges, h5.wtmp⟩⟩
+    have hk0 : OSAPConfig_Verify (OSAPConfig_SetDefaults cfg) = Gen.Err.ok := hok
     unfold optSuffixArrayParser_init
     simp only []
-    rw [if_neg (fun hc => hc hok), hb, bind_ok]
-    simp only [ne_eq, not_true_eq_false, if_false]
-    rw [h1, bind_ok]
-    simp only [hcost, if_true]
-    rfl
+    simp only [hk0, ne_eq, eq_self, not_true_eq_false, not_false_eq_true, if_true, if_false]
+    rw [hb, bind_ok]
+    simp only [ne_eq, eq_self, not_true_eq_false, not_false_eq_true, if_true, if_false, h1, bind_ok, hcost]
+    try rfl
 
 /-! ## the model parser (`LzModel/Parser.lean`): `newParser .OSAP`, `Parser.reset`, `Parser.shrink` -/
 
